@@ -211,12 +211,47 @@ BAD_PROTO = ['2.0', '0.1', '', 'abc', '11.0', 'x', '9.中', 'a\nb', 'a\rb',
              '9\r.9', '\r\r']
 
 
+def identity_intact(body, iid):
+    """Deliveries are attributed to requests through the identity property
+    of the indication: a mutated request is only used if that property is
+    still what it was (or the document is no longer well-formed XML at all,
+    in which case nothing can be delivered)."""
+    from lxml import etree
+    try:
+        root = etree.fromstring(body, etree.XMLParser(resolve_entities=False,
+                                                      huge_tree=True))
+    except etree.XMLSyntaxError:
+        return True
+    vals = root.xpath('//PROPERTY[@NAME="%s"]' % lk.ID_PROP)
+    if len(vals) != 1:
+        return False
+    p = vals[0]
+    v = p.findall('VALUE')
+    par = p.getparent()
+    return len(v) == 1 and v[0].text == iid and len(p) == 1 and \
+        p.get('TYPE') == 'string' and par is not None and \
+        par.tag == 'INSTANCE' and par.getparent() is not None and \
+        par.getparent().tag == 'EXPPARAMVALUE' and \
+        not any(a.lower() == 'embeddedobject' for a in p.attrib)
+
+
 def gen_body(rng, req, iid):
     """Sets req.body/ids and returns (label, allowed kinds) for the body
     alone (headers fine, Content-Length exact)."""
     r = rng.random()
     req.ids = [iid]
     any_ok = {SUCCESS, HTTPCIM, CIMERR}
+    if rng.random() < 0.1:
+        # the structure-aware mutations of the response check (C02) applied
+        # to a valid export request: one attribute, value, element or
+        # nesting made wrong in one specific way
+        from vf.props import c02_bad_responses as c02
+        seed = envelope(param(inst_xml(iid, rng, generated=rng.random() < 0.5))
+                        ).encode('utf-8')
+        body, kind = c02.mutate(rng, seed, [seed])
+        if len(body) < 200000 and identity_intact(body, iid):
+            req.body = body
+            return 'structure-mutated', any_ok
     if r < 0.17:
         req.body = envelope(param(inst_xml(iid, rng)),
                             msgid=str(rng.randint(1, 99999))).encode()
